@@ -52,6 +52,9 @@ def build_layout(box, rnd, srcrel):
     os.symlink("deep", os.path.join(src, "linkdir_in"))
     os.symlink("nonexistent.rs", os.path.join(src, "dangling.rs"))
     os.symlink(os.path.join(proj, "other"), os.path.join(src, "linkdir.rs"))
+    # a regular in-scope file that has a second name (hard link) outside the source directory: editing the former must not
+    # change what the latter shows
+    os.link(os.path.join(src, "a.rs"), os.path.join(proj, "other", "second_name_of_a.rs"))
     return src, names
 
 
